@@ -487,13 +487,15 @@ Definition unregister_parts (t : ptable) (si : nat) (parts : list part) : ptable
   fold_left (fun t p => unregister t (KPart si (p_id p))) parts t.
 
 (* the window after appending [seg]: gaps on the first LL rotation, eviction of the head *)
+Definition with_gaps (v : variant) (segs : list segrec) (seg : segrec) : list segrec :=
+  match v, segs with
+  | LL, [] => repeat (mkgap (sg_dur seg)) 7     (* initial gaps, required by iOS LL-HLS *)
+  | _, l => l
+  end.
+
 Definition window_append (v : variant) (segcount : Z) (segs : list segrec) (seg : segrec)
   : list segrec * option segrec :=
-  let segs1 :=
-    match v, segs with
-    | LL, [] => repeat (mkgap (sg_dur seg)) 7
-    | _, l => l
-    end ++ [seg] in
+  let segs1 := with_gaps v segs seg ++ [seg] in
   if segcount <? Z.of_nat (length segs1) then
     match segs1 with
     | d :: rest => (rest, Some d)
@@ -718,7 +720,7 @@ Definition fmp4WriteSample (m : mstate) (ti : nat) (ra paramsChanged : bool) (sm
 
 (* ---------------------------------------------------------------- MPEG-TS segment writes *)
 Definition sg_ts_write (seg : segrec) (u : tsunit) (size : Z) (endDTS : option Z) (incAU : bool) : segrec :=
-  {| sg_gap := false; sg_id := sg_id seg; sg_ntp := sg_ntp seg; sg_start := sg_start seg;
+  {| sg_gap := sg_gap seg; sg_id := sg_id seg; sg_ntp := sg_ntp seg; sg_start := sg_start seg;
      sg_end := match endDTS with Some e => e | None => sg_end seg end;
      sg_forced := sg_forced seg; sg_size := sg_size seg + size; sg_parts := sg_parts seg;
      sg_units := sg_units seg ++ [u];
